@@ -10,7 +10,7 @@
 From Coq Require Import List NArith Arith Bool.
 From Verif.Common Require Import Prefix.
 From Coq Require Import Permutation.
-From Verif.C43 Require Import Model Spec Proofs Final FinalProofs Blackhole MgrProofs FlushPerm Reflag Peer PoolUpd Chain Fresh FreshOps NR Inv Link Link2 Link3 Link4 Link5 Link6 EndToEnd Order.
+From Verif.C43 Require Import Model Spec Proofs Final FinalProofs Blackhole MgrProofs FlushPerm Reflag Peer PoolUpd Chain Fresh FreshOps NR Inv Link Link2 Link3 Link4 Link5 Link6 EndToEnd Dual Order.
 Import ListNotations.
 Open Scope N_scope.
 
@@ -237,6 +237,22 @@ Theorem c43_history_blackholes_local_blocks : forall (BK : prefix -> Prop),
   exists r, aget prefix_eqb (s_out (run true ops)) b = Some r /\ mgr_local_block (mgr_of (encap_of p)) b r = true.
 Proof. exact history_blackholes_local_blocks. Qed.
 Print Assumptions c43_history_blackholes_local_blocks.
+
+(* (8) DUAL STACK.  The resolver keeps one trie per IP family; a node carries an address + subnet of each family
+       and a workload endpoint a list of each, and the "no change" tests of onNodeUpdate / OnWorkloadUpdate range
+       over BOTH families, so a part that did not change is still re-processed when the other family's part did
+       (Model.run2: the pair of two single-family instances with such updates forced through, Model.apply_fop).
+       After ANY dual-stack history each family's downstream route set is the function of THAT family's final
+       datastore state -- in particular a single local-node update that changes the IPv4 and the IPv6 subnet at
+       once re-flags the routes of both families.  Hypotheses per family as in (6). *)
+Theorem c43_order_independent_dual : forall (BK4 BK6 : prefix -> Prop),
+  (forall a b x, BK4 a -> BK4 b -> covers 32 a x = true -> covers 32 b x = true -> a = b) ->
+  (forall a b x, BK6 a -> BK6 b -> covers 32 a x = true -> covers 32 b x = true -> a = b) ->
+  forall ops, family_ok BK4 (ops_of proj4 ops) -> family_ok BK6 (ops_of proj6 ops) ->
+  is_function_of_state (fst (run2 true ops)) (state_of (ops_of proj4 ops))
+  /\ is_function_of_state (snd (run2 true ops)) (state_of (ops_of proj6 ops)).
+Proof. exact order_independent_dual. Qed.
+Print Assumptions c43_order_independent_dual.
 
 (* the hypotheses are satisfiable by a history with reverts, a borrowed address, a local workload and the local
    node losing and regaining its IPv4 subnet; and on it the theorem's conclusion is the direct route of (1) *)
